@@ -27,6 +27,7 @@ package cache
 // ---------------------------------------------------------------------------------------------------
 
 //@ func WithTTL
+//@   modifies H|time.Duration|*
 //@   props C06
 //@   requires ctx != nil
 //@   let cell := ttlCell(ctx)
@@ -39,21 +40,25 @@ package cache
 //@   replay withttl existing=ttlOf(ctx) ttl=ttl update=updateExisting hascell=ttlCell(ctx)!=nil
 
 //@ func TTL
+//@   pure
 //@   props C06 C10
 //@   requires ctx != nil
 //@   ensures [C06.ttlread] result == ttlOf(ctx)
 
 //@ func SkipRead
+//@   pure
 //@   props C06 C07
 //@   requires ctx != nil
 //@   ensures [C06.skipread] result == skipRead(ctx)
 
 //@ func WithSkipRead
+//@   pure
 //@   props C06
 //@   requires ctx != nil
 //@   ensures [C06.withskip] result != nil && skipRead(result) && ttlCell(result) == ttlCell(ctx)
 
 //@ func withoutSkipRead
+//@   pure
 //@   props C06
 //@   requires ctx != nil
 //@   ensures [C06.withoutskip] result != nil && !skipRead(result) && ttlCell(result) == ttlCell(ctx)
@@ -61,18 +66,22 @@ package cache
 // detachedContext: exposes parent values, never cancelled, no deadline (C04, C06).
 
 //@ func (detachedContext).Deadline
+//@   pure
 //@   props C04 C06
 //@   ensures [C06.detached.deadline] !ok
 
 //@ func (detachedContext).Done
+//@   pure
 //@   props C04 C06
 //@   ensures [C06.detached.done] result == nil
 
 //@ func (detachedContext).Err
+//@   pure
 //@   props C04 C06
 //@   ensures [C06.detached.err] result == nil
 
 //@ func (detachedContext).Value
+//@   pure
 //@   props C04 C06
 //@   requires d.parent != nil
 //@   ensures [C06.detached.value] result == ctxValue(d.parent, key)
@@ -126,19 +135,23 @@ package cache
 // ts / tsTime: the stored timestamp and the reported time.Time denote the same instant (ns since the epoch).
 
 //@ func ts
+//@   pure
 //@   props C10
 //@   requires abs(t) < 9223372036854775807
 //@   ensures [C10.ts] result == t
 
 //@ func tsTime
+//@   pure
 //@   props C10
 //@   ensures [C10.roundtrip] result == ns
 
 //@ func (TraitEntry).ExpireAt
+//@   pure
 //@   props C10
 //@   ensures [C10.walk.expireat] result == e.E
 
 //@ func (errExpired).ExpiredAt
+//@   pure
 //@   props C10
 //@   requires e.entry != nil
 //@   ensures [C10.err.expiredat] result == e.entry.E
@@ -393,7 +406,7 @@ package cache
 //@   loop 2 invariant [C07.ea.in.visited] forall h uint64 :: h % 128 == i && visited(h) && hasH(c, h) ==> ent(c, h).E == startTS
 //@   loop 2 invariant [C07.ea.in.done] forall h uint64 :: h % 128 < i && hasH(c, h) ==> ent(c, h).E == startTS
 //@   loop 2 invariant [C07.ea.in.kv] forall p *TraitEntry :: old(allocated(p)) ==> p.K == old(p.K) && p.V == old(p.V) && p.C == old(p.C)
-//@   modifies H|TraitEntry|.E M|map[uint64]*TraitEntry|* @stat @log G|clock G|clk G|nclk
+//@   modifies H|TraitEntry|.E* M|map[uint64]*TraitEntry|* @stat @log @clock
 
 // DeleteAll: the cache is empty afterwards.
 
@@ -762,6 +775,7 @@ package cache
 //@ def inLabels(labels, l) := exists j int :: 0 <= j && j < len(labels) && labels[j] == l
 
 //@ func (*InvalidationIndex).cutKeys
+//@   modifies M|map[string][]string|*
 //@   props C15
 //@   requires labeledKeys != nil
 //@   ensures [C15.cut.nonnil] result != nil
@@ -782,6 +796,7 @@ package cache
 // calls that reported success; on a deleter failure the unprocessed keys are put back - without panicking.
 
 //@ func (*InvalidationIndex).invalidateByLabels
+//@   modifies M|map[string][]string|* E|string|* G|cnt|Deleter.Delete G|delok
 //@   props C15
 //@   requires ctx != nil && labeledKeys != nil
 //@   requires forall j int :: 0 <= j && j < len(deleters) ==> deleters[j] != nil
@@ -816,6 +831,7 @@ package cache
 //@   props C15 C16
 //@   requires ctx != nil && indexOK(i)
 //@   ensures [C15.total] result0 == delok() - old(delok())
+//@   loop 1 invariant [C15.ibl.index] indexOK(i)
 //@   loop 1 invariant [C15.ibl.snap] labeledKeysByName != nil && deleters != nil
 //@       && (forall n string :: has(labeledKeysByName, n) ==> labeledKeysByName[n] != nil && has(deleters, n))
 //@       && (forall n string :: forall j int :: has(deleters, n) && 0 <= j && j < len(deleters[n]) ==> deleters[n][j] != nil)
